@@ -133,6 +133,9 @@ class _Null(object):
     def force_sample_recording(self):
         pass
 
+    def disable_recording(self):
+        pass
+
 
 NULL = _Null()
 
@@ -350,6 +353,8 @@ def make_service(deco, plan, run, handlers=None, params=None):
                 tr.discard_recording()
             if 'force_op' in run.cur_faults:
                 tr.force_sample_recording()
+            if 'disable_op' in run.cur_faults:
+                tr.disable_recording()
             if (not plan.term_in_body) and plan.term_at == i:
                 raise exc_obj(plan, 'term', Boom2 if plan.term_kind == 1 else Interrupt)
             kind = KINDS[op // 2]
